@@ -123,6 +123,17 @@ fn weights(p: Profile) -> &'static [(Code, u32)] {
     }
 }
 
+/// The complete chain enumerations (computed once per process: costly under Miri).
+pub fn cached_chains(raw: bool) -> &'static Vec<Vec<u64>> {
+    static E: std::sync::OnceLock<Vec<Vec<u64>>> = std::sync::OnceLock::new();
+    static R: std::sync::OnceLock<Vec<Vec<u64>>> = std::sync::OnceLock::new();
+    if raw {
+        R.get_or_init(|| enumerate_chains(true, if cfg!(miri) { 2 } else { 3 }, &[7, 11, 13]))
+    } else {
+        E.get_or_init(|| enumerate_chains(false, if cfg!(miri) { 2 } else { 3 }, &[7, 11, 13]))
+    }
+}
+
 impl Gen {
     pub fn new(seed: u64, profile: Profile, keyspace: u64, tail: usize, max_len: usize) -> Gen {
         let mut rng = Rng::new(seed);
@@ -157,8 +168,8 @@ impl Gen {
             pos: 0,
             progress: 0,
             max_len,
-            chains: enumerate_chains(false, 3, &[7, 11, 13]),
-            raw_chains: enumerate_chains(true, 3, &[7, 11, 13]),
+            chains: cached_chains(false).clone(),
+            raw_chains: cached_chains(true).clone(),
         }
     }
 
@@ -422,6 +433,9 @@ impl Gen {
 
     fn forget_mode(&mut self) -> u64 {
         // forgetting leaks by design; it blinds leak detectors, so only the ledger profiles use it
+        if noforget() {
+            return 0;
+        }
         match self.profile {
             Profile::Ub => 0,
             _ => self.rng.chance(1, 5) as u64,
